@@ -382,6 +382,11 @@ def build_cases(ctx, thorough):
     cases.append(mk((150, 2, 1), (100, 2, 1), regs=['emu', 'timing']))
     cases.append(mk((164, 2, 1), (100, 2, 1), regs=['emu', 'timing']))
     cases.append(mk((70, 3, 2), (3, 5, 7), regs=['emu', 'timing'], ver=5))
+    # 3-D, z (and y) extents that are not multiples of the work-group size: plain, split and partitioned
+    cases.append(mk((5, 3, 7), (2, 2, 3)))
+    cases.append(mk((5, 3, 7), (2, 2, 3), cus=[2, 1]))
+    cases.append(mk((5, 3, 7), (2, 2, 3), mode='parts', parts=3))
+    cases.append(mk((4, 5, 7), (4, 2, 2), mode='parts', parts=5, cus=[1, 3], gpu=2))
     cases.append(mk((130, 1, 1), (64, 1, 1), regs=['emu', 'timing'], cus=[2, 1], ver=2))
     se = small_enum()
     be = boundary_enum()
